@@ -74,6 +74,10 @@ class Scenario:
         # the model reads the instance dict by position (like a wrapper without feature names does): every input the
         # library builds for it must keep the key order of the explained instance
         self.positional = kw.get("positional", False)
+        # keys of multi-label model outputs: "int" (0, 1, ..), "str" ("lab0", ..) or "mixed" (0, "lab1", 2.5, (3, 3))
+        self.labels = kw.get("labels", "int")
+        # explain_one(x_i=.., y_i=..) and an all-keyword constructor call instead of positional arguments
+        self.keyword_calls = kw.get("keyword_calls", False)
         self.shuffle_keys = kw.get("shuffle_keys", False)  # the key order of the instance dicts changes from call to call
         self.extreme = kw.get("extreme", False)            # legal but extreme random outcomes (first / last row, ...)
         self.fault_type = kw.get("fault_type", 0)          # exception class of injected faults (index into proxies.BOOMS)
@@ -177,6 +181,9 @@ def build(sc):
         for row in W:
             row[sc.ignore_feature - 1] = F(0)
     rec = Recorder()
+    LAB = {"int": lambda l: l, "str": lambda l: "lab%d" % l,
+           "mixed": lambda l: [0, "lab1", 2.5, (3, 3), "lab4"][l % 5]}[sc.labels if not sc.tables.startswith("spec:") else "int"]
+    lindex = {LAB(l): l for l in range(max(nlab, 1))}
     labels = {}          # label -> small int id used in the trace
 
     def lab_id(k):
@@ -198,7 +205,7 @@ def build(sc):
             if l == nlab - 1 and nlab >= 2 and F(v[0]) < 0 and sc.ignore_feature != 1:
                 continue       # the last label only appears for some inputs: label sets grow over time
             s = sum(W[l][i] * v[i] for i in range(d)) + C[l] * inter
-            out[l] = conv(osc * (s * s + l + F(1, 2)))
+            out[LAB(l)] = conv(osc * (s * s + l + F(1, 2)))
         return out
 
     if sc.tables.startswith("spec:"):
@@ -230,7 +237,7 @@ def build(sc):
             else:
                 val = sum(F((k + 1) * (2 - y_true)) * F(pv) for k, pv in y_pred.items()) - F(y_true * len(y_pred))
         else:
-            val = F(sc.loss_scale) * (sum((F(y_true) * (2 if k == "output" else k + 1) - F(pv)) ** 2 for k, pv in y_pred.items())
+            val = F(sc.loss_scale) * (sum((F(y_true) * (2 if k == "output" else lindex[k] + 1) - F(pv)) ** 2 for k, pv in y_pred.items())
                                       - F(y_true, 7) + len(y_pred)) + sc.loss_offset
         val = conv(val)
         rec.order.append("l")
@@ -284,12 +291,13 @@ def build(sc):
         kw["dynamic_setting"] = sc.dynamic
     if sc.n_inner != 1:
         kw["n_inner_samples"] = np.int64(sc.n_inner) if sc.numeric == "np" else sc.n_inner
+    head = dict(model_function=model, loss_function=loss, feature_names=names) if sc.keyword_calls else None
     if sc.cls == "sage":
         if sc.bigger:
             kw["loss_bigger_is_better"] = True
-        ex = IncrementalSage(model, loss, names, **kw)
+        ex = IncrementalSage(**head, **kw) if head else IncrementalSage(model, loss, names, **kw)
     else:
-        ex = IncrementalPFI(model, loss, names, **kw)
+        ex = IncrementalPFI(**head, **kw) if head else IncrementalPFI(model, loss, names, **kw)
     return dict(ex=ex, rec=rec, names=names, labels=labels, lab_id=lab_id, model=model, loss=loss, conv=conv)
 
 
@@ -500,7 +508,7 @@ def run_scenario(sc, tape_mode="log", script=None, keep_raw=False, provider=None
                     ex.update_storage(x, y)        # the public manual storage update, between explain_one calls
                     outcome = "manual"
                 else:
-                    ret = ex.explain_one(x, y, **kw)
+                    ret = ex.explain_one(x_i=x, y_i=y, **kw) if sc.keyword_calls else ex.explain_one(x, y, **kw)
             except Boom:
                 outcome, exc_name = "exc", "Boom"
             except TapeMismatch:
@@ -648,7 +656,7 @@ def random_scenario(rng, cls=None, quickness=1, **force):
         stream.append((xs, y, n_over, upd))
     kw = dict(cls=cls, d=d, names=names, n_inner=n_inner, dynamic=dynamic, alpha=alpha, companion=rng.random() < 0.3,
               prefill=(rng.choice([0, 0, 0, 2, 5]) if storage is not None else 0),
-              positional=rng.random() < 0.15, shuffle_keys=rng.random() < 0.3, extreme=rng.random() < 0.2, fault_type=rng.randrange(len(BOOMS)),
+              positional=rng.random() < 0.15, labels=rng.choice(["int", "int", "str", "mixed"]), keyword_calls=rng.random() < 0.25, shuffle_keys=rng.random() < 0.3, extreme=rng.random() < 0.2, fault_type=rng.randrange(len(BOOMS)),
               out_scale=rng.choice([1, 1, 1, F(1, 10 ** 10), F(1, 10 ** 6), 10 ** 7]),
               loss_scale=rng.choice([1, 1, 1, F(1, 10 ** 9), 10 ** 8]),
               bigger=(cls == "sage" and rng.random() < 0.3), storage=storage,
